@@ -24,7 +24,7 @@ def plan(tier):
         for x in (0, 3, 4, 5, 7):
             trip += [(x, 1, 2), (1, x, 2), (2, 1, x), (x, x, x)]
         trip += [(14, 14, 14), (10, 10, 10), (13, 14, 13), (11, 11, 11), (10, 11, 11)]
-        ctrip = list(trip)
+        ctrip = list(trip) + [(10, 10, 14), (10, 14, 10), (14, 10, 10), (10, 14, 14)]  # Vector/Array share a cypher rank
     else:
         unary = list(TAGS)
         pair_tags = list(TAGS)
